@@ -61,9 +61,17 @@ class Check(object):
         self.findings = load_findings(pid)
 
     # ---- counting -----------------------------------------------------------------------------------
-    def add_tlc(self, r):
+    def add_tlc(self, r, model=None):
         self.states += r.distinct
         self.transitions += max(r.generated, r.distinct)
+        if r.coverage:
+            # vacuity guard: every named action of the model was taken (TLC -coverage: action -> states generated : distinct)
+            cov = {a: list(c) for a, c in r.coverage.items()}
+            self.notes.setdefault("action_coverage", {})[model or "model"] = cov
+            dead = sorted(a for a, c in cov.items() if c[0] == 0 and a not in ("Init",))
+            if dead:
+                from harness.tlc import MachineryFailure
+                raise MachineryFailure("actions never taken in %s: %s (the model is vacuous there)" % (model, dead))
 
     def count(self, key, nontrivial=True):
         self.evaluations += 1
